@@ -339,6 +339,12 @@ def n7_no_global_state(ck, cg):
         if lazy:
             continue
         mutable = any(m in ty for m in INTERIOR_MUT) or "static mut" in ty
+        if mutable:
+            from .common import write_once_static
+            once, why = write_once_static(prog, name, s)
+            if once:
+                ck.ok("N7.static", name, "", "write-once constant table: " + why)
+                continue
         ck.req(not mutable, "N7.static", name, "%s:%s" % (s["loc"]["file"].split("/repo/")[-1], s["loc"]["line"]),
                "process-wide mutable state `%s: %s`: results of one search can leak into the next one in the same process" % (name, ty))
     ck.ok("N7.static", "statics", "", "%d statics inspected (lazy_static tables are write-once with deterministic initialisers, which are in the reachable set)" % n)
